@@ -6,6 +6,7 @@ import (
 	"context"
 	"errors"
 	"fmt"
+	"strings"
 	"sync"
 	"testing"
 	"time"
@@ -20,6 +21,7 @@ import (
 
 	"verif/harness/hx"
 	"verif/harness/poolmon"
+	"verif/harness/quiesce"
 )
 
 func TestMain(m *testing.M) {
@@ -36,10 +38,11 @@ type Up struct {
 type Case struct {
 	Ups        []Up  `json:"ups"`
 	Concurrent int   `json:"concurrent"`
-	Subset     []int `json:"subset"`      // upstream indices selected by tag through QuickConfigureExec (nil = all, via Exec)
-	CancelAt   int   `json:"cancel_at"`   // cancel the caller's context before the k-th release (-1 = never)
-	Together   bool  `json:"together"`    // release all gates at once instead of one by one
-	WaitNever  bool  `json:"wait_never"`  // also wait until the helpers of never-answering upstreams have ended (5 s each)
+	QuickAll   bool  `json:"quick_all"`  // no subset, but still through QuickConfigureExec (with an empty tag list = all upstreams)
+	Subset     []int `json:"subset"`     // upstream indices selected by tag through QuickConfigureExec (nil = all, via Exec)
+	CancelAt   int   `json:"cancel_at"`  // cancel the caller's context before the k-th release (-1 = never)
+	Together   bool  `json:"together"`   // release all gates at once instead of one by one
+	WaitNever  bool  `json:"wait_never"` // also wait until the helpers of never-answering upstreams have ended (5 s each)
 }
 
 func genCase(t *rapid.T) Case {
@@ -56,6 +59,9 @@ func genCase(t *rapid.T) Case {
 	if rapid.IntRange(0, 2).Draw(t, "useSubset") == 0 {
 		k := rapid.IntRange(1, n).Draw(t, "k")
 		c.Subset = rapid.SliceOfNDistinct(rapid.IntRange(0, n-1), k, k, rapid.ID[int]).Draw(t, "subset")
+	}
+	if c.Subset == nil {
+		c.QuickAll = rapid.Bool().Draw(t, "quickAll")
 	}
 	c.CancelAt = -1
 	if rapid.IntRange(0, 4).Draw(t, "cancel") == 0 {
@@ -189,6 +195,13 @@ func runCase(c Case, ctx *hx.Ctx) *hx.Failure {
 	} else {
 		for i := range c.Ups {
 			sel = append(sel, i)
+		}
+		if c.QuickAll {
+			v, err := f.QuickConfigureExec("")
+			if err != nil {
+				return hx.Failf("C14/harness", "QuickConfigureExec(\"\"): %v", err)
+			}
+			exec = v.(sequence.Executable)
 		}
 	}
 	conc := c.Concurrent
@@ -454,6 +467,28 @@ func runCase(c Case, ctx *hx.Ctx) *hx.Failure {
 	}
 	if pr := poolmon.Problems(); len(pr) > 0 {
 		return hx.Failf("C14/double-release", "%v", pr)
+	}
+	// helper goroutines: once its upstream has returned, a helper hands over its result or sees that the call is over,
+	// and ends. A helper that stays blocked outside its upstream's exchange is stuck (helpers of silent upstreams of
+	// this or an earlier case are still inside ExchangeContext and are not looked at here).
+	stuckHelpers := func() []quiesce.G {
+		var out []quiesce.G
+		for _, g := range quiesce.With("forward.(*Forward).exchange.func") {
+			if !strings.Contains(g.Stack, ").ExchangeContext(") && g.Parked() {
+				out = append(out, g)
+			}
+		}
+		return out
+	}
+	if left := stuckHelpers(); len(left) > 0 {
+		deadline := time.Now().Add(3 * time.Second)
+		for len(left) > 0 && time.Now().Before(deadline) {
+			time.Sleep(2 * time.Millisecond)
+			left = stuckHelpers()
+		}
+		if len(left) > 0 {
+			return hx.Failf("C14/helper-goroutine-leak", "%d helper goroutine(s) of forward are still blocked 3 s after their upstream returned:\n%s", len(left), left[0].Stack)
+		}
 	}
 	diff := false
 	for _, x := range order {
